@@ -830,6 +830,7 @@ func c01Exec(c *Ctx, r *zsimrt.Run, sc *c01Scenario, class string, plan bool) {
 		}
 	}
 	if plan {
+		checkNeverConsulted(c, L, base, fs.Events, sc.ExecSeed, sc.Policy)
 		if L.Cycle != "" {
 			c.Nontrivial("cycle/" + layoutDigest(L))
 			c.Sample(map[string]any{"main": L.Main, "cycle": L.Cycle, "opts": L.Opts, "outcome": base.Kind(), "err": truncate(base.Err, 200)})
@@ -882,6 +883,8 @@ func c01Exec(c *Ctx, r *zsimrt.Run, sc *c01Scenario, class string, plan bool) {
 	}
 	setRequiredByEnabled(L, base)
 	if clause, key, detail := c01Judge(L, out, faults, fs2.Events, base.OK); clause != "" {
+		report(out, clause, key, detail, fs2.Events)
+	} else if clause, key, detail := judgeNeverConsulted(L, base, fs.Events, faults, out); clause != "" {
 		report(out, clause, key, detail, fs2.Events)
 	}
 }
